@@ -2879,19 +2879,24 @@ def result_unwrap_or_else(m, a, c):
 
 
 # ---------------------------------------------------------------- more char / u8 classification
+def _eqk(x, k):
+    """x == k for a value of any width"""
+    return (x == k) if isinstance(x, int) else (x == z3.BitVecVal(k, x.size()))
+
+
 def _cls(name, pred):
     def f(m, a, c, _p=pred):
         return _p(deref(a[0]))
-    for ty in ("char", "u8"):
-        M[("char::methods::<impl char>::" if ty == "char" else "core::num::<impl u8>::") + name] = f
+    M["char::methods::<impl char>::" + name] = f
+    M.setdefault("core::num::<impl u8>::" + name, f)
 
 
-_cls("is_ascii_whitespace", lambda x: b_or(ch_eq(x, 0x20), ch_eq(x, 0x09), ch_eq(x, 0x0A), ch_eq(x, 0x0C), ch_eq(x, 0x0D)))
+_cls("is_ascii_whitespace", lambda x: b_or(_eqk(x, 0x20), _eqk(x, 0x09), _eqk(x, 0x0A), _eqk(x, 0x0C), _eqk(x, 0x0D)))
 _cls("is_ascii_uppercase", lambda x: in_range(x, 65, 90))
 _cls("is_ascii_lowercase", lambda x: in_range(x, 97, 122))
 _cls("is_ascii_hexdigit", lambda x: b_or(in_range(x, 48, 57), in_range(x, 65, 70), in_range(x, 97, 102)))
 _cls("is_ascii_punctuation", lambda x: b_or(in_range(x, 33, 47), in_range(x, 58, 64), in_range(x, 91, 96), in_range(x, 123, 126)))
-_cls("is_ascii_control", lambda x: b_or(in_range(x, 0, 31), ch_eq(x, 127)))
+_cls("is_ascii_control", lambda x: b_or(in_range(x, 0, 31), _eqk(x, 127)))
 _cls("is_ascii_graphic", lambda x: in_range(x, 33, 126))
 lower_ascii = ascii_lower
 
